@@ -135,7 +135,7 @@ PLANS["C17"] = dict(kind="func", stages=[aws_stage([SMALL_Q, GRID_Q], [SMALL_T, 
 PLANS["C18"] = dict(kind="func", stages=[aws_stage([SMALL_Q, GRID_Q], [SMALL_T, GRID_T], max_q=900)],
                     rule="cases: every terminal behaviour of the small-step fleet model: fleet sizes across the 20 and 1000 batch limits x {never ready, k-th attach fails for every k, "
                          "any terminate call fails, create fails} x failure counter 0 / 2, run through the real provider; non-trivial: a case in which some step failed",
-                    required_facts=["fleet-never-ready", "fleet-attach-failed", "fleet-terminate-failed", "fleet-terminate-several-batches", "fleet-exit-after-3", "fleet-success"],
+                    required_facts=["fleet-never-ready", "fleet-partially-ready-at-deadline", "fleet-attach-failed", "fleet-terminate-failed", "fleet-terminate-several-batches", "fleet-exit-after-3", "fleet-success"],
                     assumptions=AWS_ASSUMPTIONS)
 PLANS["C18"]["also_ctl"] = ctl([], [], [D("up", n=6, steps=45, procs=6, fleet=True, faults=45, groups=2, dry=0)],
                                [D("up", n=20, steps=60, procs=12, fleet=True, faults=45, groups=2, dry=0)],
